@@ -94,7 +94,7 @@ def parse_template(text):
                     # //@@ letexpr <file> <fn> <var> params=a:&T;b:U ret=r:TYPE [tags=..]
                     cur = Directive('letexpr', words[1], words[2] + ' ' + words[3], parse_opts([w for w in words[4:] if '=' in w]), i + 1)
                 elif head == 'fn':
-                    cur = Directive('fn', words[1], ' '.join(w for w in words[2:] if '=' not in w and w not in ('trusted',)), parse_opts([w for w in words[2:] if '=' in w or w in ('trusted',)]), i + 1)
+                    cur = Directive('fn', words[1], ' '.join(w for w in words[2:] if '=' not in w and w not in ('trusted', 'n5')), parse_opts([w for w in words[2:] if '=' in w or w in ('trusted', 'n5')]), i + 1)
                 elif head in ('type', 'const', 'alias', 'static', 'trait'):
                     d = Directive(head, words[1], words[2], parse_opts(words[3:]), i + 1)
                     out.append(('dir', d))
@@ -631,6 +631,18 @@ def build_fn(gen, d):
             assert pieces[0][0] == 'src' and pieces[0][1].startswith('{')
             pieces[0] = ('src', '{\n        let mut %s = self; // N3' % nm + pieces[0][1][1:])
             gen.drops['N3_mut_self'] += 1
+        if 'n5' in opts:
+            # N5: `String::from(LIT) + &x`  ->  `verif_string_concat(String::from(LIT), &x)`.  Verus 0.2026.09.13 stops with an internal
+            # error on `impl Add<&str> for String` reached through a deref coercion; the unit supplies verif_string_concat with the
+            # (assumed) meaning of that operator: the concatenation of the two character sequences.
+            def n5(txt):
+                def sub(mm):
+                    after = 'verif_string_concat(String::from(%s), &%s)' % (mm.group(1), mm.group(2))
+                    gen.n1_log.append({'function': name, 'rule': 'N5', 'before': mm.group(0), 'after': after})
+                    gen.drops['N5_string_add'] = gen.drops.get('N5_string_add', 0) + 1
+                    return after
+                return re.sub(r'String::from\(("(?:[^"\\]|\\.)*")\)\s*\+\s*&(\w+)', sub, txt)
+            pieces = [(p[0], n5(p[1])) if p[0] == 'src' else p for p in pieces]
         if any(b.kind == 'n1' for b in d.blocks):
             # N1 applied on source pieces only
             pieces = [(p[0], split_n1(p[1], gen, name)) if p[0] == 'src' else p for p in pieces]
